@@ -67,7 +67,7 @@ func genParams(t *rapid.T) *Params {
 
 func genImage(t *rapid.T, maxDim int) *gen.Image {
 	o := gen.ImageOpts{MaxDim: maxDim, MaxArea: maxDim * maxDim, Comps: []int{1, 3}, PMin: 2, PMax: 16, Signed: true,
-		Classes: []string{"noise", "noise", "gradient", "twolevel", "constant", "sparse", "extremes", "runs"}, LiteralMax: 30}
+		Classes: []string{"noise", "noise", "gradient", "twolevel", "constant", "sparse", "extremes", "runs", "lpgain"}, LiteralMax: 30}
 	return gen.ImageGen(o).Draw(t, "img")
 }
 
